@@ -248,9 +248,6 @@ def check_closed_form(ctx, kind: str, fi, fill_true_only=False) -> Optional[str]
     """A vectorised implementation (binary search / counting instead of the two-pointer scan): its element-wise closed form is compared with the
     documented answer on every order type (closedform.py).  Returns None when the function was decided this way (obligations recorded), otherwise the
     reason why it is not such a form."""
-    from ..symeval import Evaluator
-    from ..closedform import Model, OutOfRange, NotClosed, sorted_arrays, spec_index
-    from ..values import arr_param
     ps = fi.params()
     if len(ps) < 2:
         return 'expected (x, lookup, ...) parameters'
@@ -281,31 +278,7 @@ def check_closed_form(ctx, kind: str, fi, fill_true_only=False) -> Optional[str]
                       'the index does not change when all values are mapped by v -> 3v + 7')
     for fill, (res, ev) in forms.items():
         ctx.check(res.length == Lq, 'C10.2', f"{label}: one result slot per query", f"extent {sym.show(res.length)[:80]}", fi.loc(), fi.qualname, f"{kind}:alloc:{fill}")
-        gathers = [e for e in ev.events if e.kind == 'gather']
-        bad, n_cases, undecided = None, 0, None
-        try:
-            for xs in sorted_arrays():
-                for q in range(-1, 8):
-                    for scale, shift in ((1, 0), (3, 7)):
-                        xs_, q_ = [scale * x + shift for x in xs], scale * q + shift
-                        mdl = Model(xs_, [q_], 0, lens)
-                        n_cases += 1
-                        want = spec_index(kind, xs_, q_, fill)
-                        try:
-                            for g in gathers:
-                                if g.data.get('mask') is None or mdl.pred(g.data['mask']):
-                                    ix = mdl.rat(g.data['index'].r)
-                                    ln = len(mdl.arr(_ref_of(g.data['base'])))
-                                    if ix.denominator != 1 or not (-ln <= ix < ln):
-                                        raise OutOfRange(f"index array element {ix} into an array of {ln} at line {getattr(g.node, 'lineno', '?')}")
-                            got = mdl.rat(res.r)
-                        except OutOfRange as ex:
-                            bad = bad or f"x = {xs_}, query = {q_}, fill_not_valid = {fill}: {ex} (IndexError)"
-                            continue
-                        if got != want:
-                            bad = bad or f"x = {xs_}, query = {q_}, fill_not_valid = {fill}: the form gives {got}, documented {want}"
-        except NotClosed as ex:
-            undecided = str(ex)
+        bad, n_cases, undecided = decide_form(kind, fill, res, [e for e in ev.events if e.kind == 'gather'], lens)
         if undecided is not None:
             ctx.unknown('C10.5', f"{label}, fill_not_valid={fill}", f"the closed form mentions a construct the finite-model evaluation does not interpret: {undecided}\n"
                                                                     f"form: {show(res, 300)}", fi.loc(), fi.qualname, f"{kind}:closed:{fill}")
@@ -318,6 +291,38 @@ def check_closed_form(ctx, kind: str, fi, fill_true_only=False) -> Optional[str]
         dtypes.check_events(ctx, ev, 'C10.2', f"{kind} search", fi)
     ctx.sample({'rule': 'C10.5', 'search': kind, 'form': show(forms[True][0], 200)})
     return None
+
+
+def decide_form(kind: str, fill: bool, res: Num, gathers, lens, strict_x=False):
+    """(first counterexample or None, number of cases, reason why undecided or None) for one element-wise closed form of a search"""
+    from ..closedform import Model, OutOfRange, NotClosed, sorted_arrays, spec_index
+    bad, n_cases = None, 0
+    try:
+        for xs in sorted_arrays():
+            if strict_x and any(a_ >= b_ for a_, b_ in zip(xs, xs[1:])):
+                continue
+            for q in range(-1, 8):
+                for scale, shift in ((1, 0), (3, 7)):
+                    xs_, q_ = [scale * x + shift for x in xs], scale * q + shift
+                    mdl = Model(xs_, [q_], 0, lens)
+                    n_cases += 1
+                    want = spec_index(kind, xs_, q_, fill)
+                    try:
+                        for g in gathers:
+                            if g.data.get('mask') is None or mdl.pred(g.data['mask']):
+                                ix = mdl.rat(g.data['index'].r)
+                                ln = len(mdl.arr(_ref_of(g.data['base'])))
+                                if ix.denominator != 1 or not (-ln <= ix < ln):
+                                    raise OutOfRange(f"index array element {ix} into an array of {ln} at line {getattr(g.node, 'lineno', '?')}")
+                        got = mdl.rat(res.r)
+                    except OutOfRange as ex:
+                        bad = bad or f"x = {xs_}, query = {q_}, fill_not_valid = {fill}: {ex} (IndexError)"
+                        continue
+                    if got != want:
+                        bad = bad or f"x = {xs_}, query = {q_}, fill_not_valid = {fill}: the form gives {got}, documented {want}"
+    except NotClosed as ex:
+        return None, n_cases, str(ex)
+    return bad, n_cases, None
 
 
 def _atom_of(r: Rat) -> int:
@@ -389,7 +394,7 @@ def check_dispatcher(ctx):
             from .common import foreign_heads
             fh_ = foreign_heads(res, calls[0].data['term'])
             if fh_ and any(c.data['callee'].qualname == target for c in calls):
-                ok = None       # another construction next to (or around) the documented call: not decided here
+                ok = _dispatch_branches(ctx, fi, lit, target, fwd)      # a fast path next to the documented call: decided branch by branch, or not at all (None)
         ctx.check(ok, 'C10.1', f"'{lit}' -> {target.rsplit('.', 1)[1]}(x, lookup{', fill_not_valid' if fwd else ''})",
                   f"{[(c.data['callee'].name, {k: show(v, 40) for k, v in c.data['bound'].items()}) for c in calls]}", fi.loc(), fi.qualname, f"dispatch:{lit}")
     # defaults
@@ -400,6 +405,51 @@ def check_dispatcher(ctx):
         d = dict(zip(ps[len(ps) - len(a.defaults):], a.defaults)).get('fill_not_valid')
         ctx.check(isinstance(d, ast.Constant) and d.value is True, 'C10.1', f"{f.name}: fill_not_valid defaults to True (out-of-range queries yield the first / last index)",
                   ast.unparse(d) if d is not None else 'none', f.loc(), f.qualname, f"default:{f.name}")
+
+
+def _dispatch_branches(ctx, fi, lit: str, target: str, fwd: bool) -> Optional[bool]:
+    """the dispatcher returns different constructions under a condition (a vectorised fast path for plain arrays, the scan otherwise): every branch
+    is either the documented call or an element-wise closed form that the finite-model evaluation decides (C10.5).  None: not decided."""
+    from .common import split_branches
+    Lx, Lq = sym.sym('Lx'), sym.sym('Lq')
+    X, Q = arr_param('X', length=Lx), arr_param('Q', length=Lq)
+    lens = {_atom_of(Lx): 'X', _atom_of(Lq): 'Q'}
+    kind = lit
+    verdict = True
+    for fill in ((True, False) if fwd else (True,)):
+        ev = Evaluator(ctx.prog, inline=inline_except(*SCANS), opaque_kind=REPO_RESULT_KIND, elementwise=True)
+        res, _ = ev.run_function(fi, args={'x': X, 'lookup': Q, 'strategy': Const(lit), 'fill_not_valid': Const(fill)})
+        if ev.issues:
+            return None
+        calls = {id(c.data['term']): c for c in ev.events if e_is_call(c)}
+        gathers = [e for e in ev.events if e.kind == 'gather']
+        for pth, val in split_branches(res):
+            c = next((c_ for c_ in calls.values() if same(val, c_.data['term'])), None)
+            if c is not None:
+                b = c.data['bound']
+                tp = ctx.prog.func(target).params()
+                if not (c.data['callee'].qualname == target and same(b.get(tp[0]), X) and same(b.get(tp[1]), Q) and (not fwd or veq(b.get(tp[2]), Const(fill)))):
+                    return False
+                continue
+            if not (isinstance(val, Num) and val.length is not None and val.length == Lq):
+                return None
+            bad, n_cases, undecided = decide_form(kind, fill, val, gathers, lens)
+            if undecided is not None:
+                return None
+            if bad is not None and pth:
+                # the path condition is not modelled; it may well demand a strictly increasing x: only a counterexample without equal elements counts
+                bad, n_cases, undecided = decide_form(kind, fill, val, gathers, lens, strict_x=True)
+                if bad is None:
+                    return None
+            ctx.check(bad is None, 'C10.5', f"'{lit}' fast path of the dispatcher (taken when {' and '.join(str(p_)[:60] for p_ in pth)[:200]}), fill_not_valid={fill}: "
+                                            f"documented index on every order type ({n_cases} cases)", f"{bad}\nform: {show(val, 300)}", fi.loc(), fi.qualname, f"fast:{lit}:{fill}")
+            if bad is not None:
+                verdict = False
+    return verdict
+
+
+def e_is_call(e) -> bool:
+    return e.kind == 'call' and e.data.get('callee') is not None
 
 
 def run(ctx):
